@@ -83,6 +83,35 @@ fn c31_q_control_followed_by_one_byte() {
 fn c31_q_partial_publish() {
     partial_frame::<6, 3>(TWO_PUBLISH)
 }
+/// All but the last byte of a frame have arrived.
+#[kani::proof]
+#[kani::unwind(20)]
+#[kani::stub(alloc::fmt::format, crate::stubs::empty_format)]
+fn c31_q_partial_last_byte_missing() {
+    partial_frame::<6, 5>(TWO_PUBLISH)
+}
+
+/// A frame with a TWO-byte length prefix (declared 128) of which everything but the last
+/// byte has arrived: the 129 bytes received exceed the declared length, yet for any limit
+/// >= 128 the decoder must wait, not reject.
+#[kani::proof]
+#[kani::unwind(20)]
+#[kani::stub(alloc::fmt::format, crate::stubs::empty_format)]
+fn c31_q_partial_two_byte_prefix_last_byte_missing() {
+    let mut frame = [0u8; 130];
+    frame[0] = 0x80;
+    frame[1] = 0x01; // declared length 128
+    frame[2] = 0x0a; // subscriptions field, 126 bytes
+    frame[3] = 126;
+    let (m, p, c): (usize, usize, usize) = (kani::any(), kani::any(), kani::any());
+    let r = validate_rpc_limits(&frame[..129], m, p, c);
+    assert!(r != Ok(true), "an incomplete frame is never accepted");
+    if m >= 128 {
+        assert!(r == Ok(false), "the prefix of an admissible frame just waits for more bytes");
+    }
+    kani::cover!(m == 128, "witness: frame of exactly the maximum size, one byte outstanding");
+}
+
 #[cfg(feature = "thorough")]
 #[kani::proof]
 #[kani::unwind(20)]
